@@ -72,24 +72,8 @@ theorem C02_history (ws ws' : List Write) (hp : ws.Perm ws') (hok : ∀ w ∈ ws
 
 /-- Single-bit set: changes exactly bit `i` (same numbering) and is a no-op above 63. -/
 theorem C02_setbit (d : Data) (i k : Nat) (b : Bool) :
-    payloadBit (setBit d i b) k = if k = i ∧ i ≤ 63 then b else payloadBit d k := by
-  unfold setBit payloadBit
-  by_cases h : i > 63
-  · have : ¬ i ≤ 63 := by omega
-    simp [h, this]
-  · have h' : i ≤ 63 := by omega
-    simp only [h, if_false]
-    by_cases hk : k < 64
-    · cases b
-      · simp only [Bool.false_eq_true, if_false, BitVec.getLsbD_and, BitVec.getLsbD_not, one_shl_getLsbD]
-        by_cases e : k = i <;> simp [e, hk, h']
-      · simp only [if_true, BitVec.getLsbD_or, one_shl_getLsbD]
-        by_cases e : k = i
-        · subst e; simp [hk, h']
-        · simp [e]
-    · have e : ¬ (k = i) := by omega
-      rw [BitVec.getLsbD_of_ge _ _ (by omega), BitVec.getLsbD_of_ge _ _ (by omega)]
-      simp [e]
+    payloadBit (setBit d i b) k = if k = i ∧ i ≤ 63 then b else payloadBit d k :=
+  payloadBit_setBit d i k b
 
 theorem C02_setbit_noop (d : Data) (i : Nat) (b : Bool) (h : 63 < i) : setBit d i b = d := by
   unfold setBit; simp [h]
